@@ -951,6 +951,8 @@ structure Cfg where
   splitKeepsAfter : Bool := true     -- splitText vs. a boundary point right after the node
   renameInvalidates : Bool := true   -- renameNode vs. getElementsByTagName caches
   contentDeletesData : Bool := true  -- extract/deleteContents cut boundary text with deleteData (not setNodeValue)
+  splitDetachedStays : Bool := true  -- splitText of a parentless node: boundary points stay in the old node
+  insertNodeChecksFirst : Bool := true  -- Range::insertNode refuses what insertBefore will refuse BEFORE it splits the text
   deriving Repr
 
 structure VState where
@@ -1149,7 +1151,11 @@ def splitNotify (cfg : Cfg) (v : VState) (s s' : Store) (t k off : Nat) : VState
       let v1 := notify cfg v s' (.inserted k)
       if cfg.splitKeepsAfter then splitAfterAll v1 s' k else v1
     | none => v
-  notify cfg v1 s' (.split t k off)
+  -- A parentless node: the new node is linked to nothing, a boundary point that followed the text into it would leave its
+  -- range with the two points in different trees.  Rule of the Spec (DOM: "split a Text node", the ranges move to the new
+  -- node only when there is a parent): the points stay in the old node, at its new end.  The code moves them.
+  if (parentOf s t).isNone ∧ cfg.splitDetachedStays then notify cfg v1 s' (.textDeleted t off (lenOf s t - off))
+  else notify cfg v1 s' (.split t k off)
 
 /-- the document whose change counter an operation advances (when `opBumps`) -/
 def bumpDoc (s : Store) : Op → Option NodeId
@@ -1298,6 +1304,10 @@ def rangeInsert (cfg : Cfg) (v : VState) (_k : Nat) (r : Range) (n : NodeId) : V
         else (v, .ok)
       | some p =>
         if r.so > 0 then
+          -- Rule of the Spec: an operation that raises changes nothing.  The code splits the text and only then lets
+          -- insertBefore find out that the parent (an Attr) cannot hold the node: HIERARCHY_REQUEST_ERR with the text split.
+          let dry := (step s (.insertBefore p n (some r.sc))).2
+          if cfg.insertNodeChecksFirst ∧ !dry.isOk then (v, .dom dry) else
           let (v1, res) := vstep cfg v (.splitText r.sc r.so)
           match res with
           | .ok (.node nw) =>
